@@ -71,7 +71,7 @@ CLAIMS["C02"] = dict(
         "included); the CatalogFragment constructor yields the 12-character 7-bit title, cycle, boot option, total sectors, entry count and the k-th "
         "entry (symbolic k) from arbitrary catalogue sectors; the CRC routine used for .inf files is CRC-16/XMODEM (one-step lemma). Listing order "
         "(cat comparator) and line formats are separate obligations when present in evidence.",
-   note="bounded by entries per fragment (3 quick, 31 thorough); ostream formatting is modelled by harness/cxx/iomodel.h", ref="5 C02", tech=TECH_CXX)
+   note="bounded by entries per fragment (3 quick, 8 thorough; 31 did not pass its unwinding assertions and is not claimed); ostream formatting is modelled by harness/cxx/iomodel.h", ref="5 C02", tech=TECH_CXX)
 CLAIMS["C13"] = dict(
    text="smells_like_watford / smells_like_hdfs decided for every sector 1 (256 symbolic bytes) and every 8-byte prefix of sector 2: Watford iff the "
         "recognition bytes are present and no catalogued file starts in sector 2 (10-bit start sector); further identification kernels as listed in evidence.",
